@@ -23,7 +23,7 @@ FAMILIES = ["bits", "denormal", "special", "bigint", "digits17", "normal"]
 
 
 def nontrivial(case):
-    return int(np.prod(case["shape"])) >= 2
+    return int(np.prod([int(x) for x in case["shape"]], dtype=object)) >= 2
 
 
 def gen_cases(tier, seed):
@@ -53,6 +53,10 @@ def gen_cases(tier, seed):
     yield C(w="tensor", shape=[40, 45, 40], fam="bits")        # > 1 MB of text: larger than any text-I/O buffer
     yield C(w="ktensor", shape=[300, 2, 150], fam="normal", R=60)
     yield C(w="sptensor", shape=[50, 60, 70], fam="bits", pattern="big", base=1)
+    # index spaces whose subscripts no double represents exactly (hashed / id-like modes): subscripts are integers end to end
+    for shp in ([2 ** 60, 3, 2 ** 60 - 1], [2 ** 62, 2], [5, 2 ** 53 + 7], [2 ** 31, 2 ** 31, 2]):
+        for base in (1, 0):
+            yield C(w="sptensor", shape=shp, fam="normal", pattern="huge", base=base)
 
 
 def _values(rng, n, fam):
@@ -101,7 +105,7 @@ def _prior_export(case, ctx, rng, d):
 
 def run_case(case, ctx):
     rng = np.random.default_rng(case["cseed"])
-    shape = tuple(case["shape"])
+    shape = tuple(int(x) for x in case["shape"])
     d = tempfile.mkdtemp(prefix="pvm_c16_")
     try:
         prior = case["cseed"] % 3 == 0
@@ -129,7 +133,7 @@ def _roundtrip(ctx, obj, path, **kw):
 
 def _run(case, ctx, rng, shape, path):
     w, fam = case["w"], case["fam"]
-    n = int(np.prod(shape))
+    n = int(np.prod([int(x) for x in shape], dtype=object))
     ctx.feat(kind=w, fam=fam, N=len(shape), has_singleton=bool(1 in shape))
     if w == "tensor":
         A = _values(rng, n, fam).reshape(shape)
@@ -137,6 +141,10 @@ def _run(case, ctx, rng, shape, path):
             A.reshape(-1)[0] = 0.0
             A.reshape(-1)[1] = -0.0
         T = ttb.tensor(np.ascontiguousarray(A)) if case.get("layout") == "C" else ttb.tensor(A.copy())
+        if case["cseed"] % 3 == 1 and fam != "special":
+            # object history: a tensor enlarged by assignment (its buffer is laid out differently from a constructed one)
+            T = gen.mk_tensor(ttb, A, "grown")
+            ctx.feat(hist="grown")
         B = _roundtrip(ctx, T, path)
         if B is None:
             return
@@ -183,7 +191,14 @@ def _run(case, ctx, rng, shape, path):
                           lambda k=k: f"factor {k} differs: {_first(B.factor_matrices[k], fm[k])}", factor=min(k, 3))
     else:
         pat = case["pattern"]
-        if pat == "big":
+        if pat == "huge":
+            k = 6
+            subs = np.array([[int(rng.integers(max(0, s_ - 1000), s_)) if rng.random() < 0.7 else int(rng.integers(0, s_)) for s_ in shape] for _ in range(k)], dtype=np.int64)
+            subs[0] = [s_ - 1 for s_ in shape]
+            subs = np.unique(subs, axis=0)
+            subs = subs[rng.permutation(subs.shape[0])]
+            k = subs.shape[0]
+        elif pat == "big":
             k = 60000
             lin = rng.choice(n, size=k, replace=False)
             subs = np.stack(np.unravel_index(lin, shape), axis=1)
